@@ -82,7 +82,7 @@ for _f in ('CorrectNumberSuffix::lint', 'NumberSuffix::from_chars', 'NumberSuffi
 RAC_FOR_FUNCTION['parse_inline_tag'] = ['comment_frontends']
 RAC_FOR_FUNCTION['LiterateHaskellMasker::create_mask'] = ['lhs_frontend']
 RAC_FOR_FUNCTION['GitCommitParser::parse'] = []
-for _f in ('Unit::parse', 'Go::parse', 'JsDoc::parse', 'JavaDoc::parse', 'parse_line', 'line_is_code_fence', 'without_initiators'):
+for _f in ('Unit::parse', 'Go::parse', 'JsDoc::parse', 'JavaDoc::parse', 'HtmlParser::parse', 'parse_line', 'mark_inline_tags', 'line_is_code_fence', 'without_initiators'):
     RAC_FOR_FUNCTION[_f] = ['comment_frontends']
 RAC_FOR_FUNCTION['index_to_position'] = ['lsp_glue']
 RAC_FOR_FUNCTION['span_to_range'] = ['lsp_glue']
